@@ -1,5 +1,6 @@
 """C07 - Peak finding returns the true disk positions for every frame shape."""
 import json
+import math
 
 import numpy as np
 
@@ -31,9 +32,14 @@ def gen(rng):
     sep = int(4 * radius + 4)
     pos = []
     tries = 0
+    near_edge = rng.random() < 0.35
     while len(pos) < nd and tries < 2000:
         tries += 1
-        p = (int(rng.integers(sep // 2, fy - sep // 2)), int(rng.integers(sep // 2, fx - sep // 2)))
+        # fully inside the frame, but possibly closer to an edge than the pattern's search radius (centre >= radius + 2 from every edge)
+        m = int(math.ceil(radius)) + 2 if near_edge else sep // 2
+        p = (int(rng.integers(m, fy - m)), int(rng.integers(m, fx - m)))
+        if near_edge and len(pos) == 0:
+            p = (m, int(rng.integers(m, fx - m))) if rng.random() < 0.5 else (int(rng.integers(m, fy - m)), fx - m - 1)
         if all(max(abs(p[0] - q[0]), abs(p[1] - q[1])) >= sep for q in pos):
             pos.append(p)
     bright = rng.permutation(len(pos)) * 1.5 + 2.0
